@@ -37,6 +37,21 @@ def _server_files():
     return iter_migration_files(SQLITE_MIGRATION_SOURCE[1])
 
 
+_FROZEN = os.path.join(os.path.dirname(os.path.dirname(os.path.abspath(__file__))), "fixtures", "released_migrations", "server")
+
+
+def _start_files():
+    """Migration files that built the databases which exist in the field: the RELEASED files (frozen copy of the pinned commit,
+    /verif/fixtures/released_migrations) for every version that had been released, the working tree's file for newer ones.
+    Start states built from the working tree alone could never notice an edit to an already released migration."""
+    import pathlib
+    out = []
+    for f in _server_files():
+        fr = pathlib.Path(_FROZEN) / f.name
+        out.append(fr if fr.exists() else f)
+    return out
+
+
 def cases():
     n = len(_server_files())
     out = []
@@ -96,7 +111,7 @@ def _open(path, mode):
 def _build_start(td, kind, k, mode="percall", name="m.db"):
     from llama_agents.server._store.sqlite.migrate import run_migrations
     path = td.db(name)
-    files = _server_files()
+    files = _start_files()
     if kind == "fresh":
         return path
     conn = _open(path, mode)
